@@ -105,6 +105,10 @@ Section Run.
                        | Some f => match load_bytes f with Some v => go r v file outs | None => Err JSONDecodeError end
                        | None => Err OSErr
                        end
+                     else if ustr_eqb op (U"replace") then
+                       match args with [v] => go r v file outs | _ => Unmodelled end
+                     else if ustr_eqb op (U"prefill") then
+                       match args with [VBytes f] => go r mem (Some f) outs | _ => Unmodelled end
                      else if ustr_eqb op (U"sign") then
                        match args with
                        | [VBytes sd] => mem' <- sign_signable ed_pub ed_sign mem (VPriv sd) ;; go r mem' file outs
